@@ -21,7 +21,8 @@ ASSUMPTIONS = ["strict reader mc/rp66.py", "reference model mc/model.py and sche
 
 def shards(tier):
     return [{'kind': k, 'mode': m} for k in KINDS for m in ('full', 'bare')] + \
-        [{'kind': k, 'mode': 'rank2'} for k in lattice.RANK2_KINDS] + [{'kind': 'channel', 'mode': 'in-frame'}]
+        [{'kind': k, 'mode': 'rank2'} for k in lattice.RANK2_KINDS] + [{'kind': 'channel', 'mode': 'in-frame'}] + \
+        [{'kind': k, 'mode': 'blank-text'} for k in KINDS]
 
 
 def bound(tier, shard):
@@ -131,9 +132,64 @@ def write_twice(sp, info, shard):
     return Outcome('ok:written-twice', viol, True, digest=sha(data))
 
 
+def blank_text(ctx, shard):
+    """Texts of length 0 and texts of blanks only are values like any other: full product of {text attribute of the
+    kind} x {'', ' ', '   ', (lists holding them)} x assignment route, incl. the blank text assigned over an earlier
+    text through set_attributes."""
+    kind = shard['kind']
+    ads = [ad for ad in lattice.settable(kind) if ad.typ in ('text', 'ident') and not (kind == 'channel' and ad.kw == 'units')]
+    if not ads:
+        return Outcome('n/a', [], False)
+    ad = ctx.choose('attribute', ads, free=True)
+    vals = ['', ' ', '   ']
+    if ad.multi:
+        vals = [[''], [' '], ['', 'x'], ['x', '  ', '']] + vals
+    v = ctx.choose('value', vals, free=True)
+    route = ctx.choose('route', ['kw', 'dict', 'as', 'setattrs-dict', 'setattrs-as', 'later', 'over-dict', 'over-as', 'over-later'],
+                       free=True)
+    kw, later = {}, []
+    if kind == 'frame':
+        kw['channels'] = [lattice.R_('C1')]
+    if kind == 'origin':
+        kw.update(file_set_number=7, creation_time=lattice.DT0)
+    wrap = lambda x, r: {'$dict': {'value': x}} if r.endswith('dict') else {'$as': {'value': x}}
+    if route == 'kw':
+        kw[ad.kw] = v
+    elif route in ('dict', 'as'):
+        kw[ad.kw] = wrap(v, route)
+    elif route in ('setattrs-dict', 'setattrs-as'):
+        later.append({'op': 'setattrs', 'h': 'T', 'kw': {ad.attr: wrap(v, route)}})
+    elif route == 'later':
+        later.append({'op': 'set', 'h': 'T', 'attr': ad.attr, 'part': 'value', 'value': v})
+    else:
+        kw[ad.kw] = ['draft', 'text'] if ad.multi and isinstance(v, list) else 'draft'
+        if route == 'over-later':
+            later.append({'op': 'set', 'h': 'T', 'attr': ad.attr, 'part': 'value', 'value': v})
+        else:
+            later.append({'op': 'setattrs', 'h': 'T', 'kw': {ad.attr: wrap(v, route)}})
+    ops = lattice.base_ops(kind) + [S.op_add(kind, 'T', 'TARGET', **kw)] + later
+    sp = {'sul': {'max_record_length': 8192}, 'ops': ops, 'write': {}}
+    res = S.run_spec(sp)
+    brief = f"kind={kind} attribute={ad.kw} value={v!r} route={route}"
+    if res['failed_at'] is not None or res['write'] != 'ok':
+        why = res['status'][-1] if res['failed_at'] is not None else res['write']
+        return Outcome('blank-text:raised', [], False, digest=why[:40])
+    viol = []
+    try:
+        lfs = R.split_logical_files(R.parse_physical(res['data']))
+        m = M.Model(sp)
+        for code, d in M.check_inventory(m, m.lfs[0], lfs[0]) + M.check_attrs(m, m.lfs[0], lfs[0]):
+            viol.append((f"C05:{code}:blank-text", f"{d[:300]} | {brief}"))
+    except R.FormatError as e:
+        viol.append((f"C05:unparsable:{e.code}", f"{e} | {brief}"))
+    return Outcome(f"ok:blank-text:{route}", viol, True, digest=sha(res['data']))
+
+
 def body(ctx, shard):
     if shard['mode'] == 'in-frame':
         return in_frame(ctx)
+    if shard['mode'] == 'blank-text':
+        return blank_text(ctx, shard)
     sp, info = lattice.build_spec(shard['kind'], shard['mode'], ctx, 'quick')
     cand = [ad.kw for ad in lattice.settable(shard['kind']) if ad.kw in info['assigned']
             and not (shard['kind'] == 'frame' and ad.kw == 'channels')
